@@ -37,6 +37,7 @@ fi
 generate "$repo" "$root" 2> "$work/gen.err" || { cat "$work/gen.err" >&2; fail "translator failed on $repo"; }
 cat "$work/gen.err" >&2
 
+ulimit -s unlimited 2>/dev/null || ulimit -s 4000000 2>/dev/null || true   # long report strings
 coq() { # coq <file-stem> <output-file>: compile one file, output captured
   timeout "$COQ_TIMEOUT" coqc -q -Q "$root" Gods -w -notation-overridden "$E/$1.v" > "$2" 2>&1
 }
